@@ -4,7 +4,7 @@
 set -u
 MD=$(realpath "$1"); shift
 M=/var/tmp/es-$$
-git -C /repo worktree add -q --detach $M HEAD || exit 3
+git -C /repo worktree add -q --detach $M ${BASE:-HEAD} || exit 3
 echo "== demo on clean worktree"; (bash $MD/demo/run.sh $M >/tmp/es-$$-clean.log 2>&1; echo "demo_clean_exit=$?")
 cd $M && git apply "$MD/patch.diff" || { echo "PATCH DOES NOT APPLY"; cd /; git -C /repo worktree remove --force $M; exit 3; }
 echo "== repo tests on patched worktree"
